@@ -101,6 +101,21 @@ def one(ctx, rng, P, use_strace):
                 elif k in ("both-changed-other-size", "only-B"):
                     B[p] = rdata(rng, 3000) + b"!!"
         ctx.stats.classes["tree:sibling-names-around-slash"] += 1
+    if rng.random() < 0.3:
+        # relative paths longer than the 260 characters some platforms stop at (every component stays below 255)
+        for _ in range(rng.randint(1, 2)):
+            p = "/".join(["L" + "".join(rng.choice("abcdefghij0123456789_") for _ in range(rng.choice([59, 100, 200]))) for _ in range(rng.choice([2, 3, 4]))] + ["n" * rng.choice([1, 120, 250])])
+            if len(p) < 261 or any(u == p or u.startswith(p + "/") or p.startswith(u + "/") for u in used):
+                continue
+            used.add(p)
+            k = rng.choice(["only-A", "only-B", "both-changed-other-size"])
+            cls[p] = k
+            d = rdata(rng, 2000)
+            if k != "only-B":
+                A[p] = d
+            if k != "only-A":
+                B[p] = rdata(rng, 2000) + b"#"
+        ctx.stats.classes["tree:relative-path-longer-than-260"] += 1
     if rng.random() < 0.3 and (A or B):
         # a file next to another one whose name is that name plus a suffix an implementation might use for scratch files
         for base in rng.sample(sorted(set(A) | set(B)), min(3, len(set(A) | set(B)))):
